@@ -64,23 +64,51 @@ def run(rep):
         b += 1
         E, peaks, perc = grid_drive.channel_grid(rng)
         recs.append(grid_drive.perc_record_fixed(b, E, peaks, perc))
-    # beyond the listed property: optimal_n_paths (validity, first = optimal, pairwise difference >= min_diff, order of cost).
-    # These records are judged by the same trace spec but are INFORMATIONAL: C10 does not speak about n-paths, so a deviation
-    # is printed as a NOTE and recorded in the evidence, never reported as a violation of C10.
-    extra_recs = []
-    for k in range(30 if quick else 400):
-        b += 1
-        # small grids, faces only: optimal_n_paths enumerates simple paths until enough different ones are found
-        E = grid_drive.random_grid(rng, maxdims=(2, 2, 3), p_block=float(rng.choice([0.0, 0.15])))
-        r_ = grid_drive.npaths_record(rng, b, E, False)
-        if r_ is not None:
-            extra_recs.append(r_)
     nt = sum(1 for r_ in recs if len(r_['sites']) >= 3 or r_.get('raised') or r_.get('none'))
     for r_ in recs[1:4] + recs[-2:]:
         r_ = dict(r_)
         rep.sample({k: r_[k] for k in ('act', 'E', 'start', 'stop', 'sites', 'perc', 'peaks', 'meta') if k in r_})
     judge(rep, recs)
     rep.nontrivial += nt
+    # beyond the listed property: optimal_n_paths (validity, first = optimal, pairwise difference >= min_diff, order of cost).
+    # These records are judged by the same trace spec but are INFORMATIONAL: C10 does not speak about n-paths, so a deviation
+    # is printed as a NOTE and recorded in the evidence, never reported as a violation of C10.  The leg runs AFTER the
+    # property has been decided and under a wall-clock budget per call (optimal_n_paths enumerates simple paths and can take
+    # unbounded time on a tree where the graph has more edges than it should): it can never delay or mask the verdict.
+    import signal
+
+    class _Budget(Exception):
+        pass
+
+    def _alarm(signum, frame):
+        raise _Budget()
+    extra_recs, skipped = [], {}
+    old = signal.signal(signal.SIGALRM, _alarm)
+    try:
+        for k in range(30 if quick else 400):
+            b += 1
+            # small grids, faces only: optimal_n_paths enumerates simple paths until enough different ones are found
+            E = grid_drive.random_grid(rng, maxdims=(2, 2, 3), p_block=float(rng.choice([0.0, 0.15])))
+            signal.alarm(20)
+            try:
+                r_ = grid_drive.npaths_record(rng, b, E, False)
+            except _Budget:
+                skipped['budget-exceeded'] = skipped.get('budget-exceeded', 0) + 1
+                if skipped['budget-exceeded'] >= 3:
+                    break
+                continue
+            except Exception as e:                                  # informational leg: noted, not a verdict on C10
+                skipped['raised:' + type(e).__name__] = skipped.get('raised:' + type(e).__name__, 0) + 1
+                continue
+            finally:
+                signal.alarm(0)
+            if r_ is not None:
+                extra_recs.append(r_)
+    finally:
+        signal.alarm(0)
+        signal.signal(signal.SIGALRM, old)
+    for kx, c in skipped.items():
+        print(f'NOTE (outside the listed properties): optimal_n_paths {kx} in {c} calls')
     if extra_recs:
         metas = [r_.pop('meta') for r_ in extra_recs]
         verdicts = core.validate_traces('TraceGrid', extra_recs, timeout=2400)
@@ -90,7 +118,7 @@ def run(rep):
             if v != 'ok':
                 notes.setdefault(v, {'count': 0, 'example': {'meta': meta, 'start': rec['start'], 'stop': rec['stop'], 'E': rec['E'], 'paths': rec['paths'][:4]}})
                 notes[v]['count'] += 1
-        rep.extra['beyond_property_optimal_n_paths'] = {'records': len(extra_recs), 'deviations': notes}
+        rep.extra['beyond_property_optimal_n_paths'] = {'records': len(extra_recs), 'deviations': notes, 'skipped': skipped}
         for v, d in notes.items():
             print(f'NOTE (outside the listed properties): optimal_n_paths {v} in {d["count"]} of {len(extra_recs)} cases')
     rep.exhaustive = True
